@@ -179,7 +179,7 @@ def finish(prop, tier, level, merged, rule, assumptions, t0, extra_cov=None, min
         else:
             unlisted.append(v)
     rc = 0
-    rdir = os.path.join(VERIF, "replays", prop)
+    rdir = os.path.join(os.environ.get("VERIF_REPLAY_DIR", os.path.join(VERIF, "replays")), prop)
     for v in unlisted:
         os.makedirs(rdir, exist_ok=True)
         name = re.sub(r"[^A-Za-z0-9_.-]+", "_", v["signature"])[:80] + "-%d.json" % sd
@@ -227,8 +227,9 @@ def finish(prop, tier, level, merged, rule, assumptions, t0, extra_cov=None, min
         "violations": len(unlisted),
         "repo": vbuild.repo_path(),
     }
-    os.makedirs(os.path.join(VERIF, "evidence"), exist_ok=True)
-    with open(os.path.join(VERIF, "evidence", prop + ".json"), "w") as f:
+    evdir = os.environ.get("VERIF_EVIDENCE_DIR", os.path.join(VERIF, "evidence"))
+    os.makedirs(evdir, exist_ok=True)
+    with open(os.path.join(evdir, prop + ".json"), "w") as f:
         json.dump(ev, f, indent=1, sort_keys=True)
     verdict = {0: "HELD", 1: "VIOLATED", 2: "INCONCLUSIVE"}[rc]
     print("%s property=%s tier=%s seed=%d evaluations=%d distinct_nontrivial=%d known=%d wall=%.1fs" % (
